@@ -608,3 +608,101 @@ class OriginSuite(PairedSuite):
                 return (f"origin moved by {c}s: strike of row {x[0]} place {x[1]} at offset {float(y[3] - c):.6f}s "
                         f"instead of {float(x[3]):.6f}s")
         return None
+
+
+# ============================================================================= C10: progress; the main loop never dies
+class ProgressSuite(PairedSuite):
+    """Closed-loop bands of responsive humans (punctual, lagging, erratic, early), tower-size changes
+    between and during touches, both rhythms."""
+    name = "progress"
+    coq_cap = {"quick": 40, "thorough": 400}
+
+    def scenarios(self, rng, tier):
+        for i in range(120 if tier == "quick" else 1200):
+            kind = rng.choice(["wait", "wait", "regression"])
+            n = rng.choice([4, 5, 6, 8, 10])
+            spec = {"kind": "plain_hunt", "stage": n - rng.choice([0, 0, 1]), "custom": None}
+            nrows = rng.choice([4, 6, 8])
+            rows = probe_rows(spec, n, nrows)
+            humans = set(rng.sample(range(2, n + 1), rng.randint(0, n - 2)))
+            peal = rng.choice([150, 180, 200])
+            iv = blow_interval(peal, n)
+            look_to = Fraction(rng.randint(15, 40), 100) + Fraction(1, 1000)
+            start = look_to + 3
+            evs = [ev(0, "global", [True] * n), ev(Fraction(3, 100), "user_entered", 11, "Alice")]
+            for b in sorted(humans):
+                evs.append(ev(Fraction(5, 100) + Fraction(b, 10000), "assign", b, 11))
+            evs.append(ev(look_to, "call", "Look to"))
+            style = rng.choice(["punctual", "lagging", "erratic", "early", "absent" if kind == "regression" else "lagging"])
+            shift = Fraction(0)
+            awaited = []
+            for r, row in enumerate(rows):
+                for p, bell in enumerate(row):
+                    if bell not in humans or style == "absent":
+                        continue
+                    t = start + shift + iv * (r * n + p + (r // 2))
+                    if style == "punctual":
+                        t -= Fraction(5, 1000)
+                    elif style == "lagging":
+                        late = Fraction(rng.randint(20, 400), 1000)
+                        if kind == "wait":
+                            shift += late
+                        t += late
+                    elif style == "erratic":
+                        d = Fraction(rng.randint(-150, 300), 1000)
+                        if d > 0 and kind == "wait":
+                            shift += d
+                        t += d
+                    else:
+                        t -= iv * Fraction(rng.randint(20, 90), 100)
+                    t = max(t, look_to + Fraction(1, 50)) + Fraction(rng.randint(1, 999), 10 ** 7)
+                    evs.append(ev(t, "ring", bell))
+                    awaited.append([r, p, bell, fstr(t)])
+            # tower-size changes: between touches is covered elsewhere; here DURING the touch
+            size_change = None
+            if rng.random() < 0.35:
+                j = rng.randrange(n, (nrows - 1) * n)
+                size_change = min(16, max(4, n + rng.choice([-2, -1, 1, 2, 3])))
+                evs.append(ev(start + shift + iv * (j + j // (2 * n)) + Fraction(rng.randint(1, 99), 1000), "size", size_change))
+            horizon = start + shift + iv * (nrows * n + nrows // 2) + Fraction(1, 2) + Fraction(1, 3000)
+            rh = {"kind": kind, "inertia": rng.choice([0.5, 1.0]), "peal_speed": peal, "gap": 1.0, "max": 15}
+            if style == "lagging":      # regression inert, so that "one interval after the hold-up" is exact
+                rh.update({"inertia": 1.0, "initial_inertia": 1.0})
+            a = base(spec, n, rh, evs, horizon)
+            yield {"a": a, "oracle": {"n": n, "nrows": nrows, "humans": sorted(humans), "style": style, "kind": kind,
+                                      "iv": fstr(iv), "size_change": size_change, "awaited": awaited,
+                                      "look_to": fstr(look_to)}}
+
+    def cases(self, rng, tier):
+        yield from self.scenarios(rng, tier)
+
+    def oracle_C10(self, case, out):
+        o = out["a"]
+        if "trace" not in o:
+            return None
+        orc = case["oracle"]
+        if o["outcome"][0] == "crashed":
+            return f"Wheatley's main loop was killed by {o['outcome'][2]} at {o['outcome'][3]}"
+        if orc["size_change"] is not None:
+            return None        # after a mid-touch size change only survival is claimed here
+        n, iv = orc["n"], Fraction(orc["iv"])
+        rows = [(r, b) for (r, b, _t) in rows_rung(o) if len(b) == n]
+        if len(rows) < orc["nrows"] - 1:
+            return (f"{orc['style']} band, {orc['kind']} mode: only {len(rows)} of {orc['nrows']} rows were completed "
+                    f"although every human rang every blow")
+        ws = wheatley_strikes(o)
+        if orc["kind"] == "regression" and orc["style"] == "absent":
+            t0 = Fraction(orc["look_to"]) + 3
+            for (r, p, b, t) in ws:
+                if abs(t - (t0 + iv * (r * n + p + r // 2))) > TOL:
+                    return f"keep-going: nobody else rings, yet row {r} place {p} is off the schedule"
+        if orc["kind"] == "wait" and orc["style"] == "lagging":
+            # every human is late every time: a Wheatley bell that directly follows a human bell is struck one
+            # interval after the moment Wheatley saw that bell (<= one 10 ms poll after it rang), + the 2 pauses
+            human_t = {(r, p): Fraction(t) for r, p, b, t in orc["awaited"]}
+            for (r, p, b, t) in ws:
+                th = human_t.get((r, p - 1))
+                if th is not None and not (th + iv - TOL <= t <= th + iv + Fraction(3, 100) + TOL):
+                    return (f"row {r} place {p}: struck {float(t - th):.3f}s after the (late) human bell it waited for; "
+                            f"one interval is {float(iv):.3f}s")
+        return None
